@@ -608,6 +608,7 @@ def FS.visible (fs : FS) : Bool := fs.pack && fs.idx
 
 inductive FsOp where
   | createTmp | writeTmp | renameTmpToPack | openIdxLock | renameIdxLock | removePack | removeIdx | removeTmp
+  | abortIdxLock   -- `GitFile.__exit__` on an exception: the lock file is removed
   deriving Repr, DecidableEq
 
 def FsOp.apply (fs : FS) : FsOp → FS
@@ -619,6 +620,7 @@ def FsOp.apply (fs : FS) : FsOp → FS
   | .removePack => { fs with pack := false, packComplete := false }
   | .removeIdx => { fs with idx := false }
   | .removeTmp => { fs with tmp := false, tmpComplete := false }
+  | .abortIdxLock => { fs with idxLock := false }
 
 def runOps (fs : FS) : List FsOp → FS
   | [] => fs
@@ -635,8 +637,9 @@ inductive FailAt where
 /-- The mutating calls `add_thin_pack` / `add_pack().commit` make, as coded, for each failure point. -/
 def diskProgramC (c : Cfg) (p : Path) (f : FailAt) : List FsOp :=
   let install := [FsOp.renameTmpToPack, .openIdxLock, .renameIdxLock]
-  let rollback := (if Gen.Ingest.rollbackRemovesPack then [FsOp.removePack] else []) ++
-                  (if Gen.Ingest.rollbackRemovesIdx then [FsOp.removeIdx] else [])
+  let rp := if Gen.Ingest.rollbackRemovesPack then [FsOp.removePack] else []
+  let ri := if Gen.Ingest.rollbackRemovesIdx then [FsOp.removeIdx] else []
+  let rollback := if Gen.Ingest.rollbackIdxFirst then ri ++ rp else rp ++ ri
   let cleanup := match p with
     | .thin => if c.failureRemovesTmp.1 then [FsOp.removeTmp] else []
     | .addPack => if c.failureRemovesTmp.2 then [FsOp.removeTmp] else []
@@ -651,6 +654,50 @@ def diskProgram := diskProgramC Cfg.current
 /-- `add_pack()`; write fails; `abort()`. -/
 def abortProgram : List FsOp :=
   [.createTmp] ++ (if Gen.Ingest.abortRemovesTmp then [FsOp.removeTmp] else [])
+
+/-! ## a one-shot fault at every step of a disk ingest
+
+The steps of `add_thin_pack` / `add_pack().commit` + `_complete_pack`, each with the handler it runs under, as the
+translator reads them off the statement structure of `_complete_pack`. -/
+
+inductive Guard where
+  | callerCleanup    -- before the pack has its final name: the caller's `except BaseException` removes the temp file
+  | removesPack      -- the `try` around the index write: `except BaseException: os.remove(target_pack_path)`
+  | removesBoth      -- the validation `try`: rollback of index and pack
+  | nothing          -- under no handler that touches the files
+  deriving Repr, DecidableEq
+
+structure GStep where
+  op : Option FsOp   -- `none` = calls that do not change which files exist (opening and reading the installed pack, …)
+  guard : Guard
+  deriving Repr, DecidableEq
+
+/-- The ingest as a list of fault points.  `idxGuarded` = `Gen.idxWriteGuarded`; `bitmapStep` = the unguarded bitmap
+block is reachable (option on AND the path passes `refs`). -/
+def ingestSteps (idxGuarded bitmapStep : Bool) : List GStep :=
+  [⟨some .createTmp, .callerCleanup⟩, ⟨some .writeTmp, .callerCleanup⟩, ⟨some .renameTmpToPack, .callerCleanup⟩,
+   ⟨some .openIdxLock, if idxGuarded then .removesPack else .nothing⟩,
+   ⟨some .renameIdxLock, if idxGuarded then .removesPack else .nothing⟩] ++
+  (if bitmapStep then [⟨none, .nothing⟩] else []) ++
+  [⟨none, .removesBoth⟩, ⟨none, .removesBoth⟩]        -- open + read the installed pack: `check_length_and_checksum`, `PackInflater`
+
+/-- The rollback of the validation handler, with a second one-shot fault possibly hitting ITS `j`-th removal:
+`independent` = every removal is attempted whatever happened to the others; otherwise the first failure ends it. -/
+def rollbackOps (idxFirst independent : Bool) (faultIn : Option Nat) : List FsOp :=
+  let ops := if idxFirst then [FsOp.removeIdx, .removePack] else [FsOp.removePack, .removeIdx]
+  match faultIn with
+  | none => ops
+  | some j => if independent then ops.eraseIdx j else ops.take j
+
+/-- Files after: steps `0..k-1` done, step `k` raises instead of executing, the handler of step `k` runs (with
+`faultIn`), the caller's cleanup runs when its temp file still exists. -/
+def faultRun (steps : List GStep) (cleanupTmp idxFirst independent : Bool) (k : Nat) (faultIn : Option Nat) : FS :=
+  let fs := runOps {} ((steps.take k).filterMap (·.op))
+  match (steps[k]?).map (fun st => st.guard) with
+  | some Guard.removesBoth => runOps fs (rollbackOps idxFirst independent faultIn)
+  | some Guard.removesPack => runOps fs [.abortIdxLock, .removePack]
+  | some Guard.callerCleanup => if cleanupTmp then runOps fs [.removeTmp] else fs
+  | _ => fs
 
 /-! ## a caching reader: `DiskRefsContainer.get_packed_refs` and the rewrites that go through it
 
